@@ -17,12 +17,15 @@ var helpUniverse = [][]string{{}, {"x"}, {"-f", "x"}, {"-z"}, {"--", "x"}, {"--"
 
 func runHelp(c *Ctx) {
 	idx := 0
-	kinds := []int{1, 3, 8}
+	kinds := []int{1, 3, 8, 9}
 	for si, shape := range treeShapes(c.Thorough()) {
 		slots := numberSlots(shape)
 		ks := kinds
+		if !c.Thorough() {
+			ks = []int{3, 8, 9}
+		}
 		if len(slots) > 4 {
-			ks = []int{3, 8}
+			ks = []int{3, 8, 9}
 		}
 		ntrees := 0
 		kindAssignments(len(slots), ks, func(assign []int) {
